@@ -125,6 +125,10 @@ def kept(case):
 def walk(case):
     """Sequential reference walk.  -> dict(stage, index, allowed, bindings(ctx before failure), structs, tentative, rolled_back_union)"""
     m = dl.MCtx()
+    import types as _types
+
+    # (f-string axes such as '{x.shape[0]}' are evaluated over the call's arguments)
+    m.args = {p["name"]: _types.SimpleNamespace(shape=tuple(p["shape"])) for p in case["params"] if p["kind"] in ("array", "union")}
     struct_strs = {}
     rolled = False
     # arguments left to their defaults are neither checked nor bound (typecheckers do not check default values)
@@ -280,7 +284,7 @@ def check_case(ctx, case):
     rejected = w["stage"] in ("param", "return")
     nontrivial = rejected and (w.get("tentative", 0) >= 1 or w.get("rolled") or (w["stage"] == "return" and bool(w["m"].bindings())))
     ctx.note([desc], nontrivial,
-             classes=(["unpinnable-violation"] if fickle else []) + (["coroutine-function"] if is_async else []) + (["defaulted-arguments-omitted"] if min(case.get("omit", 0), case.get("ndefaults", 0)) else []) + [f"stage-{w['stage']}", f"flag-{case['flag']}"] + ([f"allowed-{'+'.join(sorted(w['allowed']))}", f"fail-index-{w['index']}"] if rejected else [])
+             classes=(["unpinnable-violation"] if fickle else []) + (["f-string-axis-over-earlier-argument"] if case.get("fstring_axis") else []) + (["coroutine-function"] if is_async else []) + (["defaulted-arguments-omitted"] if min(case.get("omit", 0), case.get("ndefaults", 0)) else []) + [f"stage-{w['stage']}", f"flag-{case['flag']}"] + ([f"allowed-{'+'.join(sorted(w['allowed']))}", f"fail-index-{w['index']}"] if rejected else [])
              + (["union-rolled-back-before"] if w.get("rolled") else []) + ([f"tentative-{min(w.get('tentative', 0), 3)}"] if rejected else []),
              sample=dict(desc, first_failure=[w["stage"], w.get("index")], bindings_in_force=w["m"].bindings() if "m" in w else None))
 
@@ -352,6 +356,14 @@ def c13_case(draw):
     case["flag"] = draw(st.sampled_from([True, False]))
     case["fname"] = draw(st.sampled_from(FNAMES))
     case["is_async"] = draw(st.sampled_from([False, True, False, False]))
+    if min(case["omit"], case["ndefaults"]) == 0 and draw(st.integers(0, 2)) == 0:
+        # an f-string axis over an earlier array argument on a (well-typed) later parameter: '{x.shape[0]} ...'
+        arrs = [i for i, p in enumerate(case["params"]) if p["kind"] == "array"]
+        if len(arrs) >= 2 and case["params"][arrs[0]]["shape"]:
+            p0, pj = case["params"][arrs[0]], case["params"][arrs[draw(st.integers(1, len(arrs) - 1))]]
+            pj["tokens"] = [gc.tok_json(dl.Token("", "sym", ("holeidx", p0["name"], "shape", 0)))] + pj["tokens"]
+            pj["shape"] = [p0["shape"][0]] + list(pj["shape"])
+            case["fstring_axis"] = True
     return case
 
 
